@@ -677,18 +677,28 @@ Qed.
 
 Lemma pow_body_ok : forall fp x y, ok false (pow_body fp x y).
 Proof.
-  intros fp x y. unfold pow_body.
-  destruct (exponent_out_of_range (dexp x * dec_trunc y)) eqn:E; [exact I|].
+  intros fp x y. unfold pow_body. cbv zeta.
+  destruct (exponent_out_of_range (dexp (dec_canonical x) * dec_trunc (dec_canonical y))) eqn:E; [exact I|].
   destruct (_ && _); [exact I|]. destruct (_ && _); [exact I|]. apply dec_pow_ok. assumption.
+Qed.
+
+Lemma mul_body_ok : forall x y, ok false (mul_body x y).
+Proof.
+  intros x y. unfold mul_body. cbv zeta.
+  destruct (exponent_out_of_range (dexp (dec_canonical x) + dexp (dec_canonical y))) eqn:E; [exact I|].
+  apply exponent_in_range in E. unfold dec_mul.
+  replace (in_int32 (dexp (dec_canonical x) + dexp (dec_canonical y))) with true; [exact I|].
+  symmetry. unfold in_int32, int32_min, int32_max. apply andb_true_iff. split; apply Z.leb_le; lia.
 Qed.
 
 (* a power whose decimal exponent would leave the limit is an error VALUE (`@(0.001 ^ 999999999)` panicked) *)
 Lemma pow_out_of_range : forall fp x y n1 n2, to_number x = Ok n1 -> to_number y = Ok n2 ->
-  (dexp n1 * dec_trunc n2 < - max_number_exponent \/ max_number_exponent < dexp n1 * dec_trunc n2) ->
+  (dexp (dec_canonical n1) * dec_trunc (dec_canonical n2) < - max_number_exponent
+   \/ max_number_exponent < dexp (dec_canonical n1) * dec_trunc (dec_canonical n2)) ->
   eval_binop fp OPow x y = Ret VErr.
 Proof.
-  intros fp x y n1 n2 H1 H2 Hr. simpl. unfold numerical_binary. rewrite H1, H2. unfold pow_body.
-  replace (exponent_out_of_range (dexp n1 * dec_trunc n2)) with true; [reflexivity|].
+  intros fp x y n1 n2 H1 H2 Hr. simpl. unfold numerical_binary. rewrite H1, H2. unfold pow_body. cbv zeta.
+  replace (exponent_out_of_range (dexp (dec_canonical n1) * dec_trunc (dec_canonical n2))) with true; [reflexivity|].
   symmetry. unfold exponent_out_of_range. apply orb_true_iff.
   destruct Hr; [left; apply Z.ltb_lt|right; apply Z.ltb_lt]; assumption.
 Qed.
@@ -698,7 +708,7 @@ Proof.
   intros fp op x y. destruct op; simpl; unfold textual_binary, numerical_binary, cmp_is;
     try (destruct (to_text x); [|exact I]; destruct (to_text y); exact I);
     (destruct (to_number x) as [n1|]; [|exact I]; destruct (to_number y) as [n2|]; [|exact I]); try exact I.
-  - destruct (exponent_out_of_range _); [exact I|]. destruct (dec_mul n1 n2); [exact I|reflexivity].
+  - apply ok_weaken. apply mul_body_ok.
   - destruct (dec_eqb n2 (Dec 0 0)) eqn:E; [exact I|].
     unfold dec_div, dec_div_round. destruct (dec_quorem n1 n2 division_precision) as [c|[q r]] eqn:Eq.
     + apply dec_quorem_class in Eq. destruct Eq as [[Hc Hz]|Hc]; subst c; [|reflexivity].
@@ -713,10 +723,7 @@ Proof.
   intros fp op x y H2. destruct op; try contradiction; simpl; unfold textual_binary, numerical_binary, cmp_is;
     try (destruct (to_text x); [|exact I]; destruct (to_text y); exact I);
     (destruct (to_number x) as [n1|]; [|exact I]; destruct (to_number y) as [n2|]; [|exact I]); try exact I.
-  - destruct (exponent_out_of_range (dexp n1 + dexp n2)) eqn:E; [exact I|].
-    apply exponent_in_range in E. unfold dec_mul.
-    replace (in_int32 (dexp n1 + dexp n2)) with true; [exact I|].
-    symmetry. unfold in_int32, int32_min, int32_max. apply andb_true_iff. split; apply Z.leb_le; lia.
+  - apply mul_body_ok.
   - apply pow_body_ok.
 Qed.
 
@@ -725,14 +732,85 @@ Proof. intros fp op x y c H. apply ok_false_iff. apply eval_binop_no_panic. assu
 
 (* a product whose decimal exponent would leave the limit is an error VALUE *)
 Lemma multiply_out_of_range : forall fp x y n1 n2, to_number x = Ok n1 -> to_number y = Ok n2 ->
-  (dexp n1 + dexp n2 < - max_number_exponent \/ max_number_exponent < dexp n1 + dexp n2) ->
+  (dexp (dec_canonical n1) + dexp (dec_canonical n2) < - max_number_exponent
+   \/ max_number_exponent < dexp (dec_canonical n1) + dexp (dec_canonical n2)) ->
   eval_binop fp OMul x y = Ret VErr.
 Proof.
-  intros fp x y n1 n2 H1 H2 Hr. simpl. unfold numerical_binary. rewrite H1, H2.
-  replace (exponent_out_of_range (dexp n1 + dexp n2)) with true; [reflexivity|].
+  intros fp x y n1 n2 H1 H2 Hr. simpl. unfold numerical_binary. rewrite H1, H2. unfold mul_body. cbv zeta.
+  replace (exponent_out_of_range (dexp (dec_canonical n1) + dexp (dec_canonical n2))) with true; [reflexivity|].
   symmetry. unfold exponent_out_of_range. apply orb_true_iff.
   destruct Hr; [left; apply Z.ltb_lt|right; apply Z.ltb_lt]; assumption.
 Qed.
+
+(* ------------------------------------------------------------------------------------------------ *)
+(* the canonical form: numerically equal decimals have THE SAME canonical form, so * and ^ (limits and results)
+   do not depend on how a number was written: 0.10 and 0.1, 1E3 and 1000 *)
+
+Definition is_canonical (d : dec) : Prop := dexp d <= 0 /\ (dexp d < 0 -> Z.rem (mant d) 10 <> 0).
+
+Lemma strip_frac_zeros_spec : forall fuel m e, e <= 0 -> (Z.to_nat (- e) <= fuel)%nat ->
+  is_canonical (strip_frac_zeros fuel m e) /\ dec_eq (strip_frac_zeros fuel m e) (Dec m e).
+Proof.
+  induction fuel as [|fuel IH]; intros m e He Hf; simpl.
+  - split; [|apply dec_eq_refl]. split; cbn [dexp mant]; lia.
+  - destruct ((e <? 0) && (Z.rem m 10 =? 0)) eqn:E.
+    + apply andb_prop in E as [E1 E2]. apply Z.ltb_lt in E1. apply Z.eqb_eq in E2.
+      destruct (IH (Z.quot m 10) (e + 1)) as [Hc Hq]; [lia|lia|]. split; [assumption|].
+      eapply dec_eq_trans; [exact Hq|].
+      replace m with (Z.quot m 10 * 10 ^ 1) at 2
+        by (rewrite Z.pow_1_r; pose proof (Z.quot_rem' m 10); lia).
+      replace e with ((e + 1) - 1) at 2 by lia. apply dec_eq_sym. apply dec_eq_scale. lia.
+    + split; [|apply dec_eq_refl]. split; cbn [dexp mant]; [assumption|].
+      intros Hlt Hr. apply andb_false_iff in E as [E|E]; [apply Z.ltb_ge in E; lia|apply Z.eqb_neq in E; contradiction].
+Qed.
+
+Lemma dec_canonical_spec : forall d, is_canonical (dec_canonical d) /\ dec_eq (dec_canonical d) d.
+Proof.
+  intros [m e]. unfold dec_canonical. cbn [mant dexp].
+  destruct (m =? 0) eqn:Em.
+  - apply Z.eqb_eq in Em. subst m. split; [split; cbn [dexp mant]; lia|].
+    apply (dec_eq_at _ _ (Z.min 0 e)); cbn [dexp mant]; lia.
+  - destruct (0 <=? e) eqn:Ee.
+    + apply Z.leb_le in Ee. split; [split; cbn [dexp mant]; lia|].
+      pose proof (dec_eq_scale m e e Ee) as Hs. rewrite Z.sub_diag in Hs. exact Hs.
+    + apply Z.leb_gt in Ee. apply strip_frac_zeros_spec; lia.
+Qed.
+
+Lemma canonical_unique : forall a b, is_canonical a -> is_canonical b -> dec_eq a b -> a = b.
+Proof.
+  assert (H : forall a b, is_canonical a -> is_canonical b -> dec_eq a b -> dexp a <= dexp b -> a = b).
+  { intros [ma ea] [mb eb] [Ha1 Ha2] [Hb1 Hb2] Heq Hle. cbn [dexp mant] in *.
+    pose proof (dec_eq_inv _ _ Heq Hle) as Hm. cbn [dexp mant] in Hm.
+    destruct (Z.eq_dec ea eb) as [->|Hne].
+    - rewrite Z.sub_diag, Z.pow_0_r, Z.mul_1_r in Hm. subst. reflexivity.
+    - exfalso. apply Ha2; [lia|]. rewrite Hm.
+      replace (eb - ea) with (1 + (eb - ea - 1)) by lia. rewrite Z.pow_add_r by lia.
+      rewrite Z.pow_1_r. replace (mb * (10 * 10 ^ (eb - ea - 1))) with ((mb * 10 ^ (eb - ea - 1)) * 10) by lia.
+      apply Z.rem_mul. lia. }
+  intros a b Ha Hb Heq. destruct (Z_le_gt_dec (dexp a) (dexp b)); [apply H; assumption|].
+  symmetry. apply H; try assumption; [apply dec_eq_sym; assumption|lia].
+Qed.
+
+Lemma canonical_respects_equality : forall a b, dec_eq a b -> dec_canonical a = dec_canonical b.
+Proof.
+  intros a b H. destruct (dec_canonical_spec a) as [Ca Ea]. destruct (dec_canonical_spec b) as [Cb Eb].
+  apply canonical_unique; try assumption.
+  eapply dec_eq_trans; [exact Ea|]. eapply dec_eq_trans; [exact H|]. apply dec_eq_sym. exact Eb.
+Qed.
+
+(* numerically equal operands give the SAME result of * and ^ (value or error) *)
+Lemma mul_pow_respect_equality : forall fp op a a' b b', (op = OMul \/ op = OPow) -> dec_eq a a' -> dec_eq b b' ->
+  eval_binop fp op (VNum a) (VNum b) = eval_binop fp op (VNum a') (VNum b').
+Proof.
+  intros fp op a a' b b' Hop Ha Hb. destruct Hop; subst op; simpl; unfold numerical_binary; simpl;
+    unfold mul_body, pow_body; rewrite (canonical_respects_equality a a' Ha), (canonical_respects_equality b b' Hb);
+    reflexivity.
+Qed.
+
+Example canonical_examples :
+  dec_canonical (Dec 10 (-2)) = Dec 1 (-1) /\ dec_canonical (Dec 1 3) = Dec 1000 0 /\ dec_canonical (Dec 0 (-5)) = Dec 0 0
+  /\ dec_canonical (Dec 10000 (-2)) = Dec 100 0 /\ dec_canonical (Dec (-2500) (-3)) = Dec (-25) (-1).
+Proof. vm_compute. repeat split; reflexivity. Qed.
 
 (* the divide-by-zero guard: an error VALUE *)
 Lemma eval_div_zero : forall fp x y n1 n2, to_number x = Ok n1 -> to_number y = Ok n2 -> mant n2 = 0 ->
